@@ -60,24 +60,26 @@ LamMaxGeR(G, r) == ~RPosDef(RShift(r, G))
 (* bordered matrix is non-singular) always exists; all optimal supports    *)
 (* give the same value mu (checked by TLC: MinNormWellDefined).            *)
 
+\* Integer form: B integer, a_S = N_S / D, mu = Mu / D with D = det B (sign normalised to D > 0).
 Bordered(G, S) == LET f == SortedSeq(S)
                       k == Len(f)
                   IN  [a \in 1..(k + 1) |-> [b \in 1..(k + 1) |->
-                         IF a <= k /\ b <= k THEN R(G[f[a]][f[b]])
-                         ELSE IF a = k + 1 /\ b = k + 1 THEN RZero ELSE ROne]]
+                         IF a <= k /\ b <= k THEN G[f[a]][f[b]]
+                         ELSE IF a = k + 1 /\ b = k + 1 THEN 0 ELSE 1]]
 
 Support(G, S) ==
     LET m   == Len(G)
         k   == Cardinality(S)
         B   == TLCEval(Bordered(G, S))
-        dt  == RDet(B)
-        sol == IF RIsZero(dt) THEN <<>> ELSE TLCEval(RSolve(B, [a \in 1..(k + 1) |-> IF a = k + 1 THEN ROne ELSE RZero]))
-        al  == IF RIsZero(dt) THEN RZeros(m)
-               ELSE TLCEval([i \in 1..m |-> IF i \in S THEN sol[PosIn(S, i)] ELSE RZero])
-        mu  == IF RIsZero(dt) THEN RZero ELSE RNeg(sol[k + 1])
-        Ga  == TLCEval(RMatVec(RMat(G), al))
-    IN  [ok    |-> ~RIsZero(dt) /\ (\A i \in S : RSign(al[i]) >= 0) /\ (\A i \in 1..m : RLe(mu, Ga[i])),
-         alpha |-> al, mu |-> mu]
+        d0  == IDet(B)
+        sg  == IF d0 < 0 THEN -1 ELSE 1
+        D   == sg * d0
+        rhs == [a \in 1..(k + 1) |-> IF a = k + 1 THEN 1 ELSE 0]
+        N   == TLCEval([i \in 1..m |-> IF i \in S THEN sg * IDet(ReplaceCol(B, PosIn(S, i), rhs)) ELSE 0])
+        Mu  == 0 - sg * IDet(ReplaceCol(B, k + 1, rhs))
+    IN  IF d0 = 0 THEN [ok |-> FALSE, alpha |-> RZeros(m), mu |-> RZero]
+        ELSE [ok    |-> (\A i \in S : N[i] >= 0) /\ (\A i \in 1..m : Mu <= IDot(G[i], N)),
+              alpha |-> TLCEval([i \in 1..m |-> Frac(N[i], D)]), mu |-> Frac(Mu, D)]
 
 MinNormCands(G) == {c \in {Support(G, S) : S \in (SUBSET IdxSet(G)) \ {{}}} : c.ok}
 MinNormSq(G)    == (CHOOSE c \in MinNormCands(G) : TRUE).mu
